@@ -315,9 +315,12 @@ func teDelegationSub(ctx *messageContext, payload []byte) error {
 	stakeDelta := new(big.Int).Neg(delta)
 	// check validator final total stake
 	if newVal.IsOnline() && newVal.Stake.Uint64() < ctx.Cfg.MinStakes[newVal.Role] {
-		val := newVal.PartialCopy()
-		newVal.Status = params.ValidatorOffline // force to offline
-		db.UpdateValidator(newVal, val)
+		// newVal is the record the journal holds as the result of the update above: change a copy, not it,
+		// or reverting that update subtracts an offline validator from the statistics that counted it online
+		forced := newVal.PartialCopy()
+		forced.Status = params.ValidatorOffline // force to offline
+		db.UpdateValidator(forced, newVal)
+		newVal = forced
 	}
 
 	addWithdrawLog(ctx, newVal, delegator, delegator, newDFrom.Token, newDFrom.Stake, withdrawToken, stakeDelta, changed, newVal.Status, uint8(status))
